@@ -2,6 +2,7 @@
 # Applies every kept seeded change to /repo in turn, runs the quick check of its property, undoes it,
 # and writes /verif/seeded/RESULTS.md. Usage: tools_run_all_seeds.sh [tier]
 TIER="${1:-quick}"
+export VERIF_EVIDENCE_DIR=/tmp/ommx-mc-seed-evidence
 cd /verif
 out=seeded/RESULTS.md
 echo "# Seeded changes vs checks (tier: $TIER)" > $out
